@@ -340,7 +340,7 @@ class _KeepsTheList(FnCheck):
         ex.oblige(st, 'keeps_the_callers_list_object', field(st, self.o, 'supported_encodings') == Val.ref(self.enc.e))
 
 
-from pyvc.api import field   # noqa: E402
+from pyvc.api import field, truthy   # noqa: E402
 
 
 @register
@@ -434,3 +434,109 @@ register(_mk_set_used_compression('sdc11073.provider.providerimpl:SdcProvider.se
                                   'C17.provider_set_used_compression', 'SdcProvider'))
 register(_mk_set_used_compression('sdc11073.consumer.consumerimpl:SdcConsumer.set_used_compression',
                                   'C17.consumer_set_used_compression', 'SdcConsumer'))
+
+
+# ---------------------------------------------------------------------------------------------------------------
+# the coding registry: a coding name selects the handler registered under exactly that (case-insensitive) name
+CH = 'sdc11073.httpserver.compression'
+
+
+class _Registry(FnCheck):
+    prop = 'C17'
+    container_hints = {'CompressionHandler.handlers': 'dict', 'cls.handlers': 'dict'}
+
+    def setup_registry(self, b):
+        st = b.st
+        self.alg = b.str('algorithm')
+        self.lower = models.uf('str_lower', StrS, StrS)
+        return V('class', py=(CH, 'CompressionHandler'))
+
+    def registry(self, ex, st):
+        """(domain, values) of the class-level handlers dict as the engine names it"""
+        mod = ex.repo.module(CH)
+        v = ex.eval_constant(mod, ex.repo.class_attr(CH, 'CompressionHandler', 'handlers')[1],
+                             f'{CH}:CompressionHandler.handlers', 'CompressionHandler.handlers', None)
+        return z3.Select(st.get_arr('DK'), v.e), z3.Select(st.get_arr('DV'), v.e)
+
+
+@register
+class GetHandler(_Registry):
+    id = 'C17.get_handler'
+    target = f'{CH}:CompressionHandler.get_handler'
+    doc = ('get_handler(coding): returns the handler registered under the lower-cased coding name, and only that one; a '
+           'coding without registered handler raises CompressionError (the message is then rejected, never decoded with '
+           'another coding)')
+    trusted = ('str.lower is a function',)
+
+    def setup(self, b):
+        cls = self.setup_registry(b)
+        return cls, [self.alg], {}
+
+    def post(self, ex, st0, st, outcome, b):
+        dk, dv = self.registry(ex, st0)
+        key = Val.str(self.lower(self.alg.e))
+        known = z3.And(z3.Select(dk, key), truthy(vany(z3.Select(dv, key)), st0))
+        if outcome[0] == 'exc':
+            ex.oblige(st, 'only_compression_error', z3.BoolVal(outcome[1].cls == 'CompressionError'), info={'exc': repr(outcome[1])})
+            ex.oblige(st, 'rejected_only_without_registered_handler', z3.Not(known))
+            return
+        ex.oblige(st, 'returns_the_handler_registered_for_that_coding', z3.And(known, st.box(outcome[1]) == z3.Select(dv, key)))
+
+
+def _mk_codec(fn):
+    class Codec(_Registry):
+        id = f'C17.{fn}'
+        target = f'{CH}:CompressionHandler.{fn}'
+        doc = (f'CompressionHandler.{fn}(coding, payload): the result is what the handler selected by get_handler(coding) '
+               f'(C17.get_handler) returns for exactly this payload; an unknown coding raises CompressionError before any '
+               'handler is touched')
+
+        def setup(self, b):
+            cls = self.setup_registry(b)
+            self.payload = b.bytes('payload')
+            self.F = z3.Function('handler_' + fn, Val, StrS, StrS)
+            b.st.ghost['calls'] = ()
+            return cls, [self.alg, self.payload], {}
+
+        def callees(self, ex):
+            def get_handler(ex_, st, args, kwargs):
+                h = st.alloc('Handler')
+                st.ghost['c:handler'] = h
+                st.ghost['c:asked'] = st.box(args[0])
+                return [(st.fork(), Raise(ex_.mk_exc('CompressionError', 'get_handler'))), (st, h)]
+
+            def codec(ex_, st, args, kwargs):
+                p = ex_.concrete_kind(st, args[0], ('bytes',))
+                st.ghost['calls'] = st.ghost['calls'] + ((st.ghost.get('c:recv'), st.box(args[0])),)
+                return vbytes(self.F(st.ghost.get('c:recv'), p.e)) if p.kind == 'bytes' else vany(fresh(Val, 'out'))
+            return {f'{CH}:CompressionHandler.get_handler': Pure(get_handler, name='get_handler (C17.get_handler)'),
+                    f'*.{fn}': Pure(codec, name=f'handler.{fn} (zlib / lz4: trusted)', trusted=True)}
+
+        def hooks(self, ex):
+            class H:
+                tracked_names = ()
+
+                @staticmethod
+                def on_call(ex_, st, fv, keys, args, kwargs, node):
+                    if fv.t == 'method':
+                        st.ghost['c:recv'] = st.box(fv.recv)
+                    return None
+            return H
+
+        def post(self, ex, st0, st, outcome, b):
+            calls = st.ghost['calls']
+            if outcome[0] == 'exc':
+                ex.oblige(st, 'unknown_coding_touches_no_handler', z3.BoolVal(len(calls) == 0 and outcome[1].cls == 'CompressionError'),
+                          info={'exc': repr(outcome[1])})
+                return
+            h = st.ghost.get('c:handler')
+            ok = len(calls) == 1 and h is not None
+            ex.oblige(st, 'one_call_of_the_selected_handler_with_this_payload', z3.And(
+                st.ghost['c:asked'] == Val.str(self.alg.e), calls[0][0] == Val.ref(h.e), calls[0][1] == Val.bytes(self.payload.e),
+                st.box(outcome[1]) == Val.bytes(self.F(Val.ref(h.e), self.payload.e))) if ok else z3.BoolVal(False))
+    Codec.__name__ = 'Codec_' + fn
+    return Codec
+
+
+register(_mk_codec('compress_payload'))
+register(_mk_codec('decompress_payload'))
